@@ -219,7 +219,19 @@ func pointDegree(context *api.Context, point b6.Feature) (int, error) {
 
 // Return the length of the given path in meters.
 func pathLengthMeters(context *api.Context, path b6.Geometry) (float64, error) {
+	if err := expectPath(path); err != nil {
+		return 0.0, err
+	}
 	return b6.AngleToMeters(path.Polyline().Length()), nil
+}
+
+// expectPath returns an error unless the given geometry is a path with at
+// least one point.
+func expectPath(g b6.Geometry) error {
+	if g == nil || g.GeometryType() != b6.GeometryTypePath || g.GeometryLen() == 0 {
+		return fmt.Errorf("expected a path with at least one point")
+	}
+	return nil
 }
 
 type pathPointCollection struct {
@@ -462,6 +474,12 @@ func appendUnseenSampledPoints(path b6.Geometry, distanceMeters float64, seen ma
 
 // Return a path formed from the points of the two given paths, in the order they occur in those paths.
 func join(context *api.Context, pathA b6.Geometry, pathB b6.Geometry) (b6.Geometry, error) {
+	if err := expectPath(pathA); err != nil {
+		return nil, err
+	}
+	if err := expectPath(pathB); err != nil {
+		return nil, err
+	}
 	points := make([]s2.Point, 0, pathA.GeometryLen()+pathB.GeometryLen())
 	i := 0
 	for i < pathA.GeometryLen() {
@@ -484,6 +502,12 @@ func join(context *api.Context, pathA b6.Geometry, pathB b6.Geometry) (b6.Geomet
 // determined by which points are shared between the paths. Returns an error
 // if no endpoints are shared.
 func orderedJoin(context *api.Context, pathA b6.Geometry, pathB b6.Geometry) (b6.Geometry, error) {
+	if err := expectPath(pathA); err != nil {
+		return nil, err
+	}
+	if err := expectPath(pathB); err != nil {
+		return nil, err
+	}
 	var reverseA, reverseB bool
 	if pathA.PointAt(pathA.GeometryLen()-1) == pathB.PointAt(0) {
 		reverseA, reverseB = false, false
